@@ -227,8 +227,38 @@ def witnesses(ctx):
     return listed
 
 
+def corpus_part(ctx):
+    """corpus/C02-witness.cases: the witnesses of the repaired deviations.  On them the implementations must
+    equal their model, os.File its specification, and nothing may deviate from os.File - a classified step
+    included: a repaired defect that comes back is a violation even if the classifier were widened again."""
+    from .. import ROOT
+    path = os.path.join(ROOT, "corpus", "C02-witness.cases")
+    if not os.path.exists(path):
+        return
+    lines = [l.rstrip("\n") for l in open(path) if l.strip() and not l.startswith("#")]
+    mm = ctx.stream("fileio-corpus", "fileio", "fileio", replay_lines=lines)
+    if mm is None:
+        return
+    if mm:
+        report_ab(ctx, mm, "fileio-corpus")
+    kff = run_kf(ctx, "fileio-corpus")
+    if kff is None:
+        return
+    n = 0
+    with open(os.path.join(ctx.dir, "fileio-corpus.observed")) as fo, open(kff) as fk:
+        for c, o, k in zip(lines, fo, fk):
+            n += 1
+            for (world, hit, repro, dev) in classify(c, o.rstrip("\n"), k.rstrip("\n")):
+                if dev is not None or repro:
+                    ctx.violation("fileio-corpus",
+                                  "a repaired deviation from os.File is back (world %s): %s" % ({"m": "MemFS", "o": "OrefaFS"}[world], dev or hit),
+                                  {"stream": OSTREAM, "case": c, "observed": o.rstrip("\n")})
+    ctx.coverage["regression_corpus_histories"] = n
+
+
 def check_C02(ctx):
     ctx.proofs()
+    corpus_part(ctx)
     listed = witnesses(ctx)
     mm = ctx.stream("fileio", "fileio", "fileio")
     if mm is None:
